@@ -85,7 +85,8 @@ def winner(matches):
 # ---- near misses ------------------------------------------------------------------------------
 
 MUTATIONS = ["none", "drop_conventions", "other_conventions", "drop_cf_role", "topology_dimension_1",
-             "topology_dimension_3", "drop_topology_dimension", "drop_ems_version", "rename_ji",
+             "topology_dimension_3", "drop_topology_dimension", "drop_ems_version", "rename_ji", "rename_i_only", "rename_j_only",
+             "add_rotated_pole_index_coordinates", "add_rotated_pole_index_coordinates",
              "drop_shoc_coordinate", "strip_lat_attrs", "strip_lon_attrs", "mixed_rank",
              "nothing"]
 
@@ -114,6 +115,24 @@ def mutate(ds, spec, mutation, pick):
         ds.attrs.pop("ems_version", None)
     elif mutation == "rename_ji" and conv == "shoc_simple":
         ds = ds.rename_dims({"j": "jj", "i": "ii"})
+    elif mutation in ("rename_i_only", "rename_j_only") and conv == "shoc_simple":
+        # a near miss: ems_version and only ONE of the two dimension names SHOC simple requires
+        ds = ds.rename_dims({"i": "ii"} if mutation == "rename_i_only" else {"j": "jj"})
+    elif mutation == "add_rotated_pole_index_coordinates":
+        # 1-D index coordinates of a rotated-pole / curvilinear grid, listed before everything
+        # else.  Their standard names CONTAIN 'latitude' / 'longitude' but are other names.
+        dims = [d for d in ds.dims]
+        if len(dims) >= 2:
+            first = {
+                "rlat": xarray.Variable((dims[0],), numpy.arange(ds.sizes[dims[0]], dtype="float64"),
+                                        {"standard_name": "grid_latitude", "units": "degrees"}),
+                "rlon": xarray.Variable((dims[1],), numpy.arange(ds.sizes[dims[1]], dtype="float64"),
+                                        {"standard_name": "grid_longitude", "units": "degrees"}),
+            }
+            data_vars = dict(first)
+            data_vars.update({k: ds.variables[k] for k in ds.data_vars})
+            ds = xarray.Dataset(data_vars=data_vars,
+                                coords={k: ds.variables[k] for k in ds.coords}, attrs=ds.attrs)
     elif mutation == "drop_shoc_coordinate" and conv == "shoc_standard":
         ds = ds.drop_vars(SHOC_NAMES[pick % len(SHOC_NAMES)])
     elif mutation in ("strip_lat_attrs", "strip_lon_attrs"):
